@@ -1,6 +1,7 @@
 """C10 - Instantiating parameters equals evaluating them."""
 from vx import core, v1types
 from vx.props import common, C03
+from vx.units.algebra import PMERGE_STUBS
 from vx.units import evaluate as ev, parametric as pa
 
 
@@ -23,13 +24,15 @@ def build(asm, tier):
     asm.file('prelude/btree_entry.rs')
     asm.file('spec/merge_spec.rs')
     asm.file('spec/kmerge_spec.rs')
+    asm.file('prelude/vmap_model.rs')
     asm.file('spec/qpe_spec.rs')
+    asm.file('spec/padd_spec.rs')
+    asm.file('spec/ppe_spec.rs')
     asm.file('spec/pe_spec.rs')
     asm.raw('} // mod lib\npub mod units {\n' + common.UNITS_USES + 'broadcast use super::lib::lemma_swap_removed_sum, super::lib::lemma_swap_removed_ids, super::lib::ax_default_f64;\n')
-    asm.raw(C03.STUBS + ev.QPE_HELPERS + ev.linear_new_stub(), 'assumed callee contracts')
+    asm.raw(C03.STUBS + ev.QPE_HELPERS + ev.linear_new_stub() + PMERGE_STUBS, 'assumed callee contracts')
     asm.stubs.append(dict(unit='Linear::new', proved_in='C02 / C12 (same contract text: the header of the verified unit)'))
-    asm.stubs.append(dict(unit='Polynomial::partial_evaluate', proved_in=''))
-    for u in (ev.linear_partial_evaluate(), ev.quadratic_partial_evaluate(), ev.function_partial_evaluate(), ev.constraint_partial_evaluate(),
+    for u in (ev.linear_partial_evaluate(), ev.quadratic_partial_evaluate(), ev.polynomial_partial_evaluate(), ev.function_partial_evaluate(), ev.constraint_partial_evaluate(),
               pa.state_from_parameters(), pa.parameters_from_state(), pa.parametric_from_instance(), pa.with_parameters()):
         asm.unit(u)
     asm.file('spec/c03_lemmas.rs')
@@ -53,7 +56,7 @@ proof fn vacuity_pre(o: v1::Function, n: v1::Function, st: Map<u64, F64>) requir
     return dict(
         min_items=9,
         trusted_base=common.TRUSTED_COMMON + common.T4_COLLECTIONS + [
-            'T5 ASSUMED callee contracts: Polynomial::partial_evaluate (see C03); Linear::new (verified in C02 / C12); helper contracts opt_linear_constant / opt_linear_terms / btree_into_pairs of Quadratic::partial_evaluate',
+            'T5 ASSUMED callee contract: Linear::new (verified in C02 / C12); R28 model type VMap for BTreeMap<Vec<u64>, f64>; helper contracts opt_linear_constant / opt_linear_terms / btree_into_pairs of Quadratic::partial_evaluate',
             'T4: iter().map(C).collect::<BTreeSet>() over an annotated closure, HashMap::keys().cloned().collect(), BTreeSet::is_subset',
             'R16: `mut self` bound to a local; R17: destructuring parameter patterns bound by a first `let`; R25: `for x in v.iter_mut()` as index loop',
             'declared substitution: the `for ids in required_ids.difference(&given_ids) { log::error!(..) }` loop (logging only) is dropped',
